@@ -143,6 +143,9 @@ fn post_fault_oracle(w: &mut W, op: Op, kind: Cb, pre: &BTreeMap<u32, u32>, pre_
         }
         // a failed clone()/clone_from() reads the source only
         Cb::CloneK | Cb::CloneV | Cb::CloneS => Some(log.iter().filter(|e| e.1).map(|e| e.0).collect()),
+        // a panicking destructor (C05: memory safety for any element type): no statement bounds what is lost
+        // or leaked; what is left must be consistent (the checks above and the cursor check below)
+        Cb::Drop => None,
     };
     if let Some(a) = allowed {
         for k in &lost {
@@ -332,6 +335,8 @@ pub fn run_e4(spec: &ShardSpec, cur: Option<&str>) -> Outcome {
     let parts: usize = spec.extra.get("parts").and_then(|s| s.parse().ok()).unwrap_or(1);
     let per_op_cont = spec.extra.get("per_op_cont").map_or(false, |s| s == "1");
     let refault = spec.extra.get("refault").map_or(false, |s| s == "1");
+    // "kinds" = "drop": inject panicking destructors only (C05); otherwise every kind the C07 statement names
+    let drop_only = spec.extra.get("kinds").map_or(false, |s| s == "drop");
     let shrink_first = spec.extra.get("shrink_first").map_or(false, |s| s == "1");
     let fam_alpha = spec.extra.get("fam_alpha").cloned().unwrap_or_else(|| "mut1+ch0+shape".to_string());
     let fam = build_family::<W>(&cfg, &fam_alpha, spec.n, cap, &mut out, cur);
@@ -340,7 +345,7 @@ pub fn run_e4(spec: &ShardSpec, cur: Option<&str>) -> Outcome {
     let alpha = alpha::by_name(&spec.alpha);
     let mut sigs: HashSet<String> = HashSet::new();
     let mut seen: HashSet<u128> = HashSet::new();
-    let mut points_by_kind = [0u64; 6];
+    let mut points_by_kind = [0u64; 7];
     let mut distinct_points: HashSet<(u128, Op, u8, u64)> = HashSet::new();
     'all: for (si, state) in fam.iter().enumerate() {
         if si % parts != part {
@@ -392,6 +397,9 @@ pub fn run_e4(spec: &ShardSpec, cur: Option<&str>) -> Outcome {
             };
             // 2. every crash point of every callback kind
             for &kind in &CB_ALL {
+                if (kind == Cb::Drop) != drop_only {
+                    continue;
+                }
                 for i in 1..=counts[kind as usize] {
                     if t0.elapsed().as_secs_f64() > spec.max_secs {
                         out.capped = Some(format!("time cap {}s", spec.max_secs));
